@@ -34,3 +34,107 @@ package streams
 //@   replay val rn = call_Read_0_n
 //@   replay val reof = call_Read_0_err == io.EOF
 //@   replay val rnil = call_Read_0_err == nil
+
+//@ func (*limitReadCloser).Close
+//@   tags C16 C07
+//@   requires l != nil && inv(l) && l.R != nil
+//@   modifies l.closed, l.R.closes
+//@   ensures inv(l)
+//@   ensures [C16.limit.closeonce] l.closed && l.R.closes == old(l.R.closes) + (old(l.closed) ? 0 : 1)
+//@   ensures l.N == old(l.N) && l.R.pos == old(l.R.pos)
+
+//@ func LimitReadCloser
+//@   tags C16
+//@   requires r != nil ==> (0 <= r.pos && r.pos <= r.total)
+//@   modifies nothing
+//@   ensures typeis(result, "*github.com/dapr/kit/streams.limitReadCloser")
+
+// ---- MultiReaderCloser ----
+// Abstract state: the construction-time list of sources srcs[0..nsrc), of which srcs[cur..nsrc) are still
+// in mr.readers. ext[j] == 1 records a source that answered http.ErrBodyReadAfterClose (already read and
+// closed by its owner). Sources are pairwise distinct objects.
+
+//@ type MultiReaderCloser
+//@   ghost srcs [int]iface
+//@   ghost nsrc int
+//@   ghost cur int
+//@   ghost ext [int]int
+//@   invariant [s.cur] 0 <= self.cur && self.cur <= self.nsrc
+//@   invariant [s.len] len(self.readers) == self.nsrc - self.cur
+//@   invariant [s.elems] forall j :: 0 <= j && j < len(self.readers) ==> self.readers[j] == self.srcs[self.cur + j]
+//@   invariant [s.nonnil] forall j :: 0 <= j && j < self.nsrc ==> self.srcs[j] != nil
+//@   invariant [s.distinct] forall i, j :: 0 <= i && i < j && j < self.nsrc ==> self.srcs[i] != self.srcs[j]
+//@   invariant [s.pos] forall j :: 0 <= j && j < self.nsrc ==> (0 <= self.srcs[j].pos && self.srcs[j].pos <= self.srcs[j].total)
+//@   invariant [C16.multi.closedonce] forall j :: 0 <= j && j < self.cur ==> (implements(self.srcs[j], "io.Closer") ==> self.srcs[j].closes + self.ext[j] == 1)
+//@   invariant [C16.multi.notyet] forall j :: self.cur <= j && j < self.nsrc ==> (self.srcs[j].closes == 0 && self.ext[j] == 0)
+//@   invariant [C16.multi.drained] forall j :: 0 <= j && j < self.cur ==> (self.srcs[j].pos == self.srcs[j].total || self.ext[j] == 1)
+
+//@ func (*MultiReaderCloser).Read
+//@   tags C16 C07
+//@   ghost last int
+//@   requires mr != nil && inv(mr)
+//@   modifies p[0:len(p)], mr.readers, mr.cur, mr.ext, pos, closes
+//@   ensures inv(mr)
+//@   ensures mr.nsrc == old(mr.nsrc) && mr.srcs == old(mr.srcs) && old(mr.cur) <= mr.cur
+//@   ensures 0 <= n && n <= len(p)
+//@   ensures [C16.multi.bytes] n > 0 ==> (old(mr.cur) <= last && last < mr.nsrc && mr.srcs[last].pos == old(mr.srcs[last].pos) + n
+//@        && (forall k :: 0 <= k && k < n ==> p[k] == mr.srcs[last].data[old(mr.srcs[last].pos) + k]))
+//@   ensures [C16.multi.noskip] n > 0 ==> (forall j :: old(mr.cur) <= j && j < last ==> (mr.srcs[j].pos == mr.srcs[j].total || mr.ext[j] == 1))
+//@   ensures [C16.multi.eof] err == io.EOF ==> mr.cur == mr.nsrc
+//@   ensures [C16.multi.later] forall j :: mr.cur < j && j < mr.nsrc ==> mr.srcs[j].pos == old(mr.srcs[j].pos)
+//@   loop 0 invariant inv(mr) && mr.nsrc == old(mr.nsrc) && mr.srcs == old(mr.srcs) && old(mr.cur) <= mr.cur
+//@   loop 0 invariant forall j :: mr.cur <= j && j < mr.nsrc ==> mr.srcs[j].pos == old(mr.srcs[j].pos)
+//@   loop 0 invariant forall j :: old(mr.cur) <= j && j < mr.cur ==> (mr.srcs[j].pos == mr.srcs[j].total || mr.ext[j] == 1)
+//@   at call Read ghost last = mr.cur
+//@   at store readers#0 ghost mr.ext = update(mr.ext, mr.cur, 1)
+//@   at store readers#0 ghost mr.cur = mr.cur + 1
+//@   at store readers#1 ghost mr.cur = mr.cur + 1
+
+//@ func NewMultiReaderCloser
+//@   tags C16 C07
+//@   requires forall j :: 0 <= j && j < len(readers) ==> readers[j] != nil
+//@   requires forall i, j :: 0 <= i && i < j && j < len(readers) ==> readers[i] != readers[j]
+//@   requires forall j :: 0 <= j && j < len(readers) ==> (0 <= readers[j].pos && readers[j].pos <= readers[j].total && readers[j].closes == 0)
+//@   modifies nothing
+//@   ensures fresh(result) && inv(result) && result.cur == 0 && result.nsrc == len(readers)
+//@   ensures forall j :: 0 <= j && j < len(readers) ==> result.srcs[j] == readers[j]
+//@   at return ghost result.srcs = lambda j :: readers[j]
+//@   at return ghost result.nsrc = len(readers)
+//@   at return ghost result.cur = 0
+//@   at return ghost result.ext = lambda j :: 0
+
+//@ func (*MultiReaderCloser).Close
+//@   tags C16 C07
+//@   requires mr != nil && inv(mr)
+//@   modifies mr.readers, mr.cur, closes
+//@   ensures invexcept(mr, "C16.multi.drained") && mr.cur == mr.nsrc && mr.nsrc == old(mr.nsrc) && mr.srcs == old(mr.srcs) && result == nil
+//@   ensures [C16.multi.close.all] forall j :: 0 <= j && j < mr.nsrc ==> (implements(mr.srcs[j], "io.Closer") ==> mr.srcs[j].closes + mr.ext[j] == 1)
+//@   loop 0 invariant invexcept(mr, "C16.multi.closedonce", "C16.multi.notyet") && mr.nsrc == old(mr.nsrc) && mr.srcs == old(mr.srcs) && mr.cur == old(mr.cur) && mr.readers == old(mr.readers)
+//@   loop 0 invariant -1 <= rangeindex && rangeindex < len(mr.readers) && mr.ext == old(mr.ext)
+//@   loop 0 invariant forall j :: 0 <= j && j < mr.cur ==> (implements(mr.srcs[j], "io.Closer") ==> mr.srcs[j].closes + mr.ext[j] == 1)
+//@   loop 0 invariant forall j :: mr.cur <= j && j <= mr.cur + rangeindex ==> (implements(mr.srcs[j], "io.Closer") ==> mr.srcs[j].closes + mr.ext[j] == 1)
+//@   loop 0 invariant forall j :: mr.cur + rangeindex < j && j < mr.nsrc ==> (mr.srcs[j].closes == 0 && mr.ext[j] == 0)
+//@   at store readers#0 ghost mr.cur = mr.nsrc
+
+//@ func (*MultiReaderCloser).writeToWithBuffer
+//@   tags C16 C07
+//@   requires mr != nil && inv(mr) && len(buf) > 0
+//@   modifies buf[0:len(buf)], mr.readers, mr.readers[0:len(mr.readers)], mr.cur, pos, closes, w.wlog, w.wpos
+//@   ensures mr.nsrc == old(mr.nsrc) && mr.srcs == old(mr.srcs)
+//@   ensures [C16.multi.writeto.inv] inv(mr)
+//@   ensures [C16.multi.writeto.done] err == nil ==> mr.cur == mr.nsrc
+//@   ensures [C16.multi.writeto.resume] err != nil ==> old(mr.cur) <= mr.cur && mr.cur < mr.nsrc
+//@   loop 0 invariant invonly(mr, "s.cur", "s.len", "s.nonnil", "s.distinct", "s.pos")
+//@   loop 0 invariant mr.nsrc == old(mr.nsrc) && mr.srcs == old(mr.srcs) && mr.cur == old(mr.cur) && mr.ext == old(mr.ext) && mr.readers == old(mr.readers)
+//@   loop 0 invariant -1 <= rangeindex && rangeindex < len(mr.readers)
+//@   loop 0 invariant forall j :: rangeindex < j && j < len(mr.readers) ==> mr.readers[j] == mr.srcs[mr.cur + j]
+//@   loop 0 invariant forall j :: 0 <= j && j < mr.cur ==> (implements(mr.srcs[j], "io.Closer") ==> mr.srcs[j].closes + mr.ext[j] == 1)
+//@   loop 0 invariant forall j :: 0 <= j && j < mr.cur ==> (mr.srcs[j].pos == mr.srcs[j].total || mr.ext[j] == 1)
+//@   loop 0 invariant forall j :: mr.cur <= j && j <= mr.cur + rangeindex ==> mr.srcs[j].pos == mr.srcs[j].total
+//@   loop 0 invariant [C16.multi.writeto.closed] forall j :: mr.cur <= j && j <= mr.cur + rangeindex ==> (implements(mr.srcs[j], "io.Closer") ==> mr.srcs[j].closes + mr.ext[j] == 1)
+//@   loop 0 invariant forall j :: mr.cur + rangeindex < j && j < mr.nsrc ==> (mr.srcs[j].closes == 0 && mr.ext[j] == 0)
+//@   at store readers#0 ghost mr.cur = mr.cur + i
+//@   at store readers#1 ghost mr.cur = mr.nsrc
+//@   replay template multiwriteto
+//@   replay val nsrc = mr.nsrc
+//@   replay val cur = mr.cur
